@@ -8,10 +8,9 @@
     element size, capacity and backend kind, with the complete case split (room / can grow / fixed
     and full => panic); plus the storage lifecycle of the user-defined backend: one build with the
     element layout, no resize request below the live length, release once after the remaining
-    elements are destroyed.  Whole histories through [Interp.exec] (composition of these
-    steps, including moves between vectors) never fault either: [C05_history_no_fault] for the fragment
-    of AV.Props.C01; outside it (drain / splice / clone inside a history) the composition is covered by
-    the correspondence check on the relocating, poison-filling, quarantining backend of the harness. *)
+    elements are destroyed.  PARTIAL: whole histories through [Interp.exec] (composition of these
+    steps, including moves between vectors) are covered by the correspondence check on the
+    relocating, poison-filling, quarantining backend of the harness. *)
 From AV.Model Require Import Base Bytes Vec Ops.
 From AV.Spec Require Import VecSpec.
 From AV.Proofs Require Import MemLemmas Rep VecProofs TempProofs RangeProofs CapProofs NoFault HandleProofs.
